@@ -21,7 +21,7 @@ def _limits():
 
 
 def run_kani(crate, harnesses, tag, jobs=8, harness_timeout=600, overall_timeout=3000, extra=None,
-             playback=False, mem_checks=False):
+             playback=False, mem_checks=False, _nested=False):
     """harnesses: fully qualified harness names. Returns (results, meta)."""
     ensure_dirs()
     c = CRATES[crate]
@@ -74,6 +74,16 @@ def run_kani(crate, harnesses, tag, jobs=8, harness_timeout=600, overall_timeout
                 data = json.load(fh)
         except Exception as e:  # truncated export
             meta['json_error'] = str(e)
+    if data is None and len(harnesses) > 1 and not _nested and 'could not compile' not in open(log, errors='replace').read():
+        # kani-driver crashed (typically: one CBMC process died at the memory limit and the driver could not parse its
+        # truncated output). Re-run every harness on its own so that only the crashing one is inconclusive.
+        results = {}
+        for i, h in enumerate(harnesses):
+            r1, m1 = run_kani(crate, [h], '%s-solo%d' % (tag, i), jobs=1, harness_timeout=harness_timeout,
+                              overall_timeout=harness_timeout + 900, extra=extra, mem_checks=mem_checks, _nested=True)
+            results.update(r1)
+        meta['fallback'] = 'sequential re-run after driver crash'
+        return results, meta
     if data is None:
         with open(log, errors='replace') as fh:
             txt = fh.read()
@@ -96,7 +106,7 @@ def run_kani(crate, harnesses, tag, jobs=8, harness_timeout=600, overall_timeout
                           'failed': [], 'cover': None, 'solver_s': 0.0, 'time_s': 0.0, 'checks': 0}
             continue
         st = stats.get(h, {})
-        failed, unwind_fail, undetermined, covers = [], [], [], []
+        failed, unwind_fail, undetermined, covers, ignored = [], [], [], [], []
         for ch in r['checks']:
             s, cat = ch['status'], ch['category']
             if cat == 'cover':
@@ -105,7 +115,14 @@ def run_kani(crate, harnesses, tag, jobs=8, harness_timeout=600, overall_timeout
             if s == 'Failure':
                 item = {'description': ch['description'].strip('"'), 'function': ch['function'],
                         'category': cat, 'location': '%s:%s' % (ch['location']['file'], ch['location']['line'])}
-                if cat == 'unwind':
+                if (cat in ('safety_check', 'pointer_dereference', 'pointer')
+                        and ch['description'].strip('"').startswith('dereference failure')
+                        and ch['function'].split('::')[0].lstrip('<') in ('std', 'core', 'alloc')):
+                    # Memory safety is outside every claim (runs use --no-memory-safety-checks; safe Rust + trusted std).
+                    # Kani 0.68 still emits this residual reference-validity check inside std (e.g. for the dangling
+                    # pointer of an empty Vec cloned under a symbolic guard); it is counted, not judged.
+                    ignored.append(item)
+                elif cat == 'unwind':
                     unwind_fail.append(item)
                 else:
                     failed.append(item)
@@ -115,7 +132,7 @@ def run_kani(crate, harnesses, tag, jobs=8, harness_timeout=600, overall_timeout
                'solver_s': float(st.get('runtime_decision_procedure_s') or 0.0) + float(st.get('runtime_symex_s') or 0.0),
                'sat_s': float(st.get('runtime_solver_s') or 0.0),
                'checks': len(r['checks']), 'vccs': st.get('vccs_generated'),
-               'program_steps': st.get('size_program_expression')}
+               'program_steps': st.get('size_program_expression'), 'ignored_std_pointer_checks': len(ignored)}
         e = errs.get(h, {})
         if not r['checks']:
             res['verdict'] = 'inconclusive'
